@@ -2,7 +2,7 @@ import numpy as _np
 import einx._src.tracer as tracer
 import einx._src.adapter as adapter
 from einx._src.util.functools import use_name_of
-from .._util import _associative_binary_to_nary, _axis_to_axisint, _axis_to_axistuple, _to_tensor
+from .._util import _associative_binary_to_nary, _fixed_arity, _axis_to_axisint, _axis_to_axistuple, _to_tensor
 from einx._src.frontend.errors import OperationNotSupportedError
 
 
@@ -335,27 +335,27 @@ class ops:
         self.stop_gradient = lambda x: x
 
         self.add = adapter.classical_from_numpy.elementwise(_associative_binary_to_nary(np.add), to_tensor=to_tensor_forward_all)
-        self.subtract = adapter.classical_from_numpy.elementwise(np.subtract, to_tensor=to_tensor_forward_all)
+        self.subtract = adapter.classical_from_numpy.elementwise(_fixed_arity(np.subtract, 2), to_tensor=to_tensor_forward_all)
         self.multiply = adapter.classical_from_numpy.elementwise(_associative_binary_to_nary(np.multiply), to_tensor=to_tensor_forward_all)
-        self.true_divide = adapter.classical_from_numpy.elementwise(np.true_divide, to_tensor=to_tensor_forward_all)
-        self.floor_divide = adapter.classical_from_numpy.elementwise(np.floor_divide, to_tensor=to_tensor_forward_all)
-        self.divide = adapter.classical_from_numpy.elementwise(np.divide, to_tensor=to_tensor_forward_all)
+        self.true_divide = adapter.classical_from_numpy.elementwise(_fixed_arity(np.true_divide, 2), to_tensor=to_tensor_forward_all)
+        self.floor_divide = adapter.classical_from_numpy.elementwise(_fixed_arity(np.floor_divide, 2), to_tensor=to_tensor_forward_all)
+        self.divide = adapter.classical_from_numpy.elementwise(_fixed_arity(np.divide, 2), to_tensor=to_tensor_forward_all)
         self.logaddexp = adapter.classical_from_numpy.elementwise(_associative_binary_to_nary(np.logaddexp), to_tensor=to_tensor_forward_all)
         self.logical_and = adapter.classical_from_numpy.elementwise(_associative_binary_to_nary(np.logical_and), to_tensor=to_tensor_forward_all)
         self.logical_or = adapter.classical_from_numpy.elementwise(_associative_binary_to_nary(np.logical_or), to_tensor=to_tensor_forward_all)
-        self.where = adapter.classical_from_numpy.elementwise(np.where, to_tensor=to_tensor_forward_all)
+        self.where = adapter.classical_from_numpy.elementwise(_fixed_arity(np.where, 3), to_tensor=to_tensor_forward_all)
         self.maximum = adapter.classical_from_numpy.elementwise(_associative_binary_to_nary(np.maximum), to_tensor=to_tensor_forward_all)
         self.minimum = adapter.classical_from_numpy.elementwise(_associative_binary_to_nary(np.minimum), to_tensor=to_tensor_forward_all)
-        self.less = adapter.classical_from_numpy.elementwise(np.less, to_tensor=to_tensor_forward_all)
-        self.less_equal = adapter.classical_from_numpy.elementwise(np.less_equal, to_tensor=to_tensor_forward_all)
-        self.greater = adapter.classical_from_numpy.elementwise(np.greater, to_tensor=to_tensor_forward_all)
-        self.greater_equal = adapter.classical_from_numpy.elementwise(np.greater_equal, to_tensor=to_tensor_forward_all)
-        self.equal = adapter.classical_from_numpy.elementwise(np.equal, to_tensor=to_tensor_forward_all)
-        self.not_equal = adapter.classical_from_numpy.elementwise(np.not_equal, to_tensor=to_tensor_forward_all)
-        self.exp = adapter.classical_from_numpy.elementwise(np.exp, to_tensor=to_tensor_forward_all)
-        self.log = adapter.classical_from_numpy.elementwise(np.log, to_tensor=to_tensor_forward_all)
-        self.negative = adapter.classical_from_numpy.elementwise(np.negative, to_tensor=to_tensor_forward_all)
-        self.divmod = adapter.classical_from_numpy.elementwise(np.divmod, to_tensor=to_tensor_forward_all)
+        self.less = adapter.classical_from_numpy.elementwise(_fixed_arity(np.less, 2), to_tensor=to_tensor_forward_all)
+        self.less_equal = adapter.classical_from_numpy.elementwise(_fixed_arity(np.less_equal, 2), to_tensor=to_tensor_forward_all)
+        self.greater = adapter.classical_from_numpy.elementwise(_fixed_arity(np.greater, 2), to_tensor=to_tensor_forward_all)
+        self.greater_equal = adapter.classical_from_numpy.elementwise(_fixed_arity(np.greater_equal, 2), to_tensor=to_tensor_forward_all)
+        self.equal = adapter.classical_from_numpy.elementwise(_fixed_arity(np.equal, 2), to_tensor=to_tensor_forward_all)
+        self.not_equal = adapter.classical_from_numpy.elementwise(_fixed_arity(np.not_equal, 2), to_tensor=to_tensor_forward_all)
+        self.exp = adapter.classical_from_numpy.elementwise(_fixed_arity(np.exp, 1), to_tensor=to_tensor_forward_all)
+        self.log = adapter.classical_from_numpy.elementwise(_fixed_arity(np.log, 1), to_tensor=to_tensor_forward_all)
+        self.negative = adapter.classical_from_numpy.elementwise(_fixed_arity(np.negative, 1), to_tensor=to_tensor_forward_all)
+        self.divmod = adapter.classical_from_numpy.elementwise(_fixed_arity(np.divmod, 2), to_tensor=to_tensor_forward_all)
 
         self.sum = adapter.classical_from_numpy.reduce(np.sum, to_tensor=to_tensor_forward_all)
         self.mean = adapter.classical_from_numpy.reduce(np.mean, to_tensor=to_tensor_forward_all)
